@@ -85,6 +85,19 @@ func NewScriptServer(handler func(ev *ReqEvent)) *ScriptServer {
 	return s
 }
 
+// NewScriptServerOnHost starts a scripted server on a free port of the given loopback host
+// (127.0.0.N: endpoints are identified by host in the selectors).
+func NewScriptServerOnHost(host string, handler func(ev *ReqEvent)) *ScriptServer {
+	l, err := net.Listen("tcp", host+":0")
+	if err != nil {
+		panic(err)
+	}
+	s := &ScriptServer{L: &Listener{L: l, Addr: l.Addr().String()}, Handler: handler}
+	s.Addr = s.L.Addr
+	go s.acceptLoop()
+	return s
+}
+
 // NewScriptServerAt starts a scripted server on a given address.
 func NewScriptServerAt(addr string, handler func(ev *ReqEvent)) (*ScriptServer, error) {
 	l, err := ListenAt(addr)
